@@ -404,10 +404,24 @@ Fixpoint last_is (c : N) (b : bytes) : bool :=
 
 Definition with_slash (p : bytes) : bytes := if last_is slash p then p else p ++ [slash].
 
-(* raw (undecoded) borders; the code sorts the encoded keys *)
+(* normalisation of the skipped prefixes (already with "/" appended, inside the prefix range): a prefix that is
+   a duplicate of, or nested in, one kept so far is dropped; the kept ones nested in a new one are dropped *)
+Definition add_outer (acc : list bytes) (s : bytes) : list bytes :=
+  if existsb (fun t => has_prefix t s) acc then acc
+  else filter (fun t => negb (has_prefix s t)) acc ++ [s].
+
+Definition outer_prefixes (ss : list bytes) : list bytes := fold_left add_outer ss [].
+
+(* raw (undecoded) borders; the code sorts the encoded keys. A skipped prefix containing the whole prefix range:
+   nothing to compact; one outside the prefix range: ignored *)
 Definition compact_borders (prefix : bytes) (skipped_prefixes : list bytes) : list bytes :=
-  let bs := flat_map (fun p => let q := with_slash p in [q; prefix_end q]) (prefix :: skipped_prefixes) in
-  sort_by (fun a b => bltb (encode a 0) (encode b 0)) bs.
+  let p := with_slash prefix in
+  let ss := map with_slash skipped_prefixes in
+  if existsb (fun s => has_prefix s p) ss then []
+  else
+    let outer := outer_prefixes (filter (fun s => has_prefix p s) ss) in
+    let bs := flat_map (fun q => [q; prefix_end q]) (p :: outer) in
+    sort_by (fun a b => bltb (encode a 0) (encode b 0)) bs.
 
 Fixpoint pairs {A} (l : list A) : list (A * A) :=
   match l with a :: b :: t => (a, b) :: pairs t | _ => [] end.
